@@ -398,6 +398,100 @@ def cases_for(tier):
     return cases
 
 
+# --------------------------------------------------------------------------------------------------------------------
+# a frame that arrives before any login was started (a stack whose application requests the login itself, later):
+# the refusal is reported, and after a reconnect the login and traffic work normally
+def run_early_frame(case, prefix):
+    from yowsup.layers.auth.layer_authentication import YowAuthenticationProtocolLayer as _Auth
+    from yowsup.layers import YowLayerEvent as _Ev
+    from yowsup.stacks.yowstack import YOWSUP_PROTOCOL_LAYERS_BASIC as _BASIC
+    tops = tuple(l for l in _BASIC if l is not _Auth)
+    # (no <success>: without the authentication layer nobody would present it)
+    w = H.World(variant=case.get("variant", "IK"), burst=case.get("burst", 1), with_success=False, top_layers=tops)
+    sc = S.Scheduler(prefix, trace_filter=H.trace_filter)
+    early = case.get("frames", 1)
+    results = {"early": []}
+    sent = [H.out_stanza(0, "e")]
+
+    def net():
+        w.connect()
+        w.dispatchers[0].fire_connected()
+        # no login requested yet; the peer (or line noise) delivers whole frames all the same
+        for k in range(early):
+            try:
+                w.dispatchers[0].connectionCallbacks.onRecvData(b"\x00\x00\x04" + bytes([0x30 + k]) * 4)
+                results["early"].append("accepted")
+            except S.SchedAbort:
+                raise
+            except BaseException as e:
+                results["early"].append(type(e).__name__)
+        sc.env_point("socket closed by peer")
+        w.dispatchers[0].handle_close()
+        w.pump_detached()
+        w.connect()
+        w.dispatchers[1].fire_connected()
+        w.stack.broadcastEvent(_Ev(_Auth.EVENT_AUTH, passive=False))
+        while True:
+            had = len(w.server_out[1]) > 0
+            sc.wait_until(lambda: len(w.server_out[1]) > 0, "server bytes")
+            if had:
+                sc.env_point("next socket event")
+            w.deliver(1, len(w.server_out[1]))
+
+    def app():
+        sc.wait_until(lambda: len(w.responders) > 1 and w.state() == "transport" and w.responders[1].phase == "transport", "session up")
+        for n in sent:
+            w.stack.send(H.NodeEntity(n))
+
+    error = None
+    try:
+        sc.run_phase([("net", net), ("app", app)], timeout=900.0)
+    except (S.HarnessStuck, S.ReplayDivergence) as e:
+        error = e
+    blocked = [(t.name, t.wait_desc) for t in sc.blocked()]
+    pts = S.summarize_points(sc)
+    log = list(sc.log)
+    sc.shutdown()
+    if error is not None:
+        raise error
+    v = []
+
+    def bad(sig, what, detail=None):
+        v.append(("C12:early-frame:" + sig, what, dict(case), detail))
+    for ent in log:
+        if ent[0] == "thread-exception":
+            bad("thread-exception:%s:%s" % (ent[1], ent[2]), "exception escaped in thread %s: %s %s" % (ent[1], ent[2], ent[3]))
+    if any(b[0] == "app" for b in blocked):
+        bad("reconnect-failed", "after a frame was refused before any login and the connection was re-established, the login never completed: "
+            "blocked=%s early=%s state=%s" % (blocked, results["early"], w.state()))
+    else:
+        try:
+            got = [H.node_key(n) for n in w.decoded_client_stanzas(1)]
+        except Exception as e:
+            got = None
+            bad("peer-cannot-decrypt", "the peer of the new connection could not read a frame: %r" % (e,))
+        if got is not None and got != [H.node_key(n) for n in sent]:
+            bad("sent-lost", "stanza sent after the reconnect did not arrive", {"got": len(got)})
+        fin = [H.node_key(n) for n in w.sent_by_server[1]]
+        got_in = []
+        for e in w.app.received:
+            try:
+                got_in.append(H.node_key(e.toProtocolTreeNode()))
+            except Exception:
+                got_in.append(("?", type(e).__name__))
+        if got_in[-len(fin):] != fin if fin else False:
+            bad("incoming-lost", "frames of the new connection did not reach the application in order", {"got": len(got_in), "sent": len(fin)})
+    held = [k for k, x in w.locks().items() if x]
+    if held:
+        bad("lock-held", "locks still held at quiescence: %s" % held)
+    obs = (tuple(results["early"]), w.state(), tuple(sorted(b[0] for b in blocked)))
+    return pts, v, obs
+
+
+EARLY_CASES = [{"early_frame": True, "frames": 1, "variant": "IK", "burst": 1},
+               {"early_frame": True, "frames": 2, "variant": "XX", "burst": 0}]
+
+
 def run(ctx):
     cases = shuffled(cases_for(ctx.tier), ctx.seed, "c12")
     bound = 1 if ctx.quick else 2
@@ -408,7 +502,12 @@ def run(ctx):
     small = [c for c in cases if not c["fault"].startswith("oversize")]
     st = dfs.explore(ctx, MOD, "run_case", small, bound, cap=cap, chunksize=4, free_bound=free_bound)
     stb = dfs.explore(ctx, MOD, "run_case", big, 0, cap=200, chunksize=1, free_bound=0)
-    ctx.note("preemption bound %d, free bound %d: executions=%d (+%d oversize) capped=%s" % (bound, free_bound, st.executions, stb.executions, st.capped))
+    ste = dfs.explore(ctx, MOD, "run_early_frame", EARLY_CASES, bound, cap=cap, chunksize=1, free_bound=free_bound)
+    st.executions += ste.executions
+    st.points += ste.points
+    st.observations |= set(("early",) + tuple(o) for o in ste.observations)
+    st.capped = st.capped or ste.capped
+    ctx.note("preemption bound %d, free bound %d: executions=%d (+%d oversize, %d early-frame) capped=%s" % (bound, free_bound, st.executions, stb.executions, ste.executions, st.capped))
     p1 = run_case(small[0], (0, {}))
     p2 = run_case(small[0], (0, {}))
     if p1 != p2:
@@ -439,5 +538,7 @@ def replay(ctx, case):
     case = dict(case)
     pf = dfs.schedule_from_case(case)
     case.pop("schedule", None)
+    if case.get("early_frame"):
+        return run_early_frame(case, pf)[1]
     pts, v, obs = run_case(case, pf)
     return v
